@@ -8,6 +8,9 @@ difference divided by the difference of the depths is the slot's frames per leve
 the simple statements and of the block headers come from one further ladder each.  The fit is then re-checked on ladders
 of other depths and of mixed slots, with a fat and a thin leaf: any deviation from the linear model aborts (fail-closed) -
 the theorems of Props/C11.v about the two stages are statements about exactly these constants.
+
+emit_guarded: whether the real emit() reports exhausted nesting as ValueError (parse() does, through
+_nesting_as_value_error) - observed by giving emit() fewer frames than it was measured to need (probe_guard).
 """
 from __future__ import annotations
 
@@ -108,6 +111,26 @@ def measure(api, N):
     return stages
 
 
+def probe_guard(api, N):
+    """does emit() report exhausted nesting as ValueError (guarded like parse() by _nesting_as_value_error) or does the
+    RecursionError escape?  Observed on the real emit(), 1 .. many frames short of its own need, on ladders of several slots
+    around thin and fat statements and on the prelude alone.  Anything but a uniform answer aborts (fail-closed)."""
+    probes = [(["if"], 14, 1, 1), (["try", "for"], 18, N.LEAVES.index("rgb.off()"), 3), (["def", "while"], 9, N.LEAVES.index("motor.stop()"), 1),
+              (["main", "else"], 12, 0, 7), ([], 0, 0, 1), (["if"], 30, 1, 200), (["except", "elif"], 21, N.LEAVES.index("motor.backward()"), 2)]
+    kinds = []
+    for pat, d, leaf, short in probes:
+        r = N.emit_when_short(N.render(N.ladder(pat, d, leaf) if d else []), short)
+        if r["parse"] is not None or r["need_emit"] is None:
+            api.die(f"nestdepth: the guard probe {pat} x {d} is not accepted by parse(): {r['parse']}")
+        kinds.append(r["emit"])
+    if all(k == "ValueError" for k in kinds):
+        return True
+    if all(k == "RecursionError" for k in kinds):
+        return False
+    api.die("nestdepth: emit() with fewer interpreter frames than it needs ends in " + str(kinds)
+            + " on the seven guard probes - neither uniformly ValueError (guarded) nor uniformly RecursionError (unguarded)")
+
+
 def _index(tree, slots):
     return [t if t[0] == "L" else ["B", slots.index(t[1]), _index(t[2], slots)] for t in tree]
 
@@ -115,6 +138,7 @@ def _index(tree, slots):
 def generate(api):
     N = _nest()
     stages = measure(api, N)
+    guarded = probe_guard(api, N)
 
     def zl(xs):
         return "[" + "; ".join(str(x) if x >= 0 else f"({x})" for x in xs) + "]"
@@ -131,5 +155,8 @@ def generate(api):
                + api.clist([api.ctext(s) + " (* " + s.replace("*)", "* )") + " *)" for s in N.LEAVES]) + ".\n\n")
     out.append("(* prelude, frames per level of each slot, header constant of each slot, constant of each simple statement *)\n")
     out.append("Definition parse_stage : stage :=\n  " + st(stages[0]) + ".\n\n")
-    out.append("Definition emit_stage : stage :=\n  " + st(stages[1]) + ".\n")
+    out.append("Definition emit_stage : stage :=\n  " + st(stages[1]) + ".\n\n")
+    out.append("(* does emit() turn its own RecursionError / MemoryError into ValueError (observed: the real emit() with 1 .. 200 frames\n"
+               "   less than it needs, seven probes)? *)\n")
+    out.append("Definition emit_guarded : bool := " + ("true" if guarded else "false") + ".\n")
     api.write_if_changed(api.GEN / "NestDepth.v", "".join(out))
